@@ -7,11 +7,6 @@ import (
 	"github.com/nspcc-dev/neo-go/pkg/util"
 )
 
-// Maximum inventory hashes number is limited to 500.
-const (
-	MaxHashesCount = 500
-)
-
 // GetBlocks contains getblocks message payload fields.
 type GetBlocks struct {
 	// Hash of the latest block that node requests.
